@@ -40,18 +40,17 @@ def kernel_siblings(ctx, facts_by_cfg):
                ('neon', 'aarch64', 'engine::engine_neon::Neon')]
     if 'i686' in facts_by_cfg:
         engines += [('ssse3@i686', 'i686', 'engine::engine_ssse3::Ssse3'), ('avx2@i686', 'i686', 'engine::engine_avx2::Avx2')]
-    kerns = [('fft_butterfly_partial', 8), ('ifft_butterfly_partial', 8), ('mul_%s', 4)]
+    kerns = [('fft-butterfly', 8), ('ifft-butterfly', 8), ('mul', 4)]
     for kern, nslots in kerns:
         dags = {}
         for eng, cfg, adt in engines:
             facts = facts_by_cfg.get(cfg)
             if facts is None:
                 continue
-            name = kern % eng.split('@')[0] if '%s' in kern else kern
-            fnp = '%s::%s' % (adt, name)
-            if fnp not in facts.fns:
-                # private helper renamed: take the unique crate callee of the Engine gate that has the same arity
-                ctx.violation(R, 'anchor-missing:%s:%s' % (eng, kern), 'kernel %s not found (renamed?): %s' % (kern, fnp), fn=fnp, cfg=cfg)
+            fnp = find_kernel(facts, adt, kern)
+            name = kern
+            if fnp is None:
+                ctx.violation(R, 'anchor-missing:%s:%s' % (eng, kern), 'unrecognised idiom: cannot find the %s kernel of %s behind <%s as Engine>' % (kern, adt, adt), fn=adt, cfg=cfg)
                 continue
             try:
                 mem, _ = kernels.summarise(facts, adt, fnp, None)
@@ -77,6 +76,32 @@ def kernel_siblings(ctx, facts_by_cfg):
                               'kernel %s computes a different lane expression than its SSSE3 sibling for bytes %d..%d of block %s: %s has %s, ssse3 has %s'
                               % (fnp, k0[1] * 16, k0[1] * 16 + 16, k0[0], eng, brief(repr(mem.get(k0))), brief(repr(ref.get(k0)))),
                               site=facts_by_cfg[cfg].fns[fnp].span, fn=fnp, cfg=cfg)
+
+
+def find_kernel(facts, adt, kind):
+    """private kernel functions found by structure from the public Engine gates:
+    mul            = end of the forwarding chain behind <T as Engine>::mul
+    fft-butterfly  = the method of T with signature (&self, &mut [[u8;64]], &mut [[u8;64]], u16) reachable from the
+                     fft schedule (ifft-butterfly: from the ifft schedule), i.e. the per-pair butterfly kernel"""
+    ms = engine_adts(facts).get(adt, {})
+    if kind == 'mul':
+        f = ms.get('mul')
+        hops = 0
+        while f is not None and hops < 5:
+            nxt = is_forwarding(f)
+            if nxt is None or facts.fns[nxt].impl_self_adt != adt:
+                break
+            f = facts.fns[nxt]
+            hops += 1
+        return f.path if f is not None else None
+    gate = ms.get('fft' if kind == 'fft-butterfly' else 'ifft')
+    if gate is None:
+        return None
+    cg = callgraph(facts)
+    seen, _ = cg.reachable([gate.path], stop=lambda p: facts.fns.get(p) is not None and facts.fns[p].impl_self_adt != adt)
+    c = [p for p in seen if facts.fns[p].impl_self_adt == adt and not facts.fns[p].impl_trait
+         and len(facts.fns[p].inputs) == 4 and facts.fns[p].inputs[1:] == ['&mut [[u8; 64]]', '&mut [[u8; 64]]', 'u16']]
+    return sorted(c)[0] if len(c) == 1 else None
 
 
 def run(ctx):
